@@ -31,6 +31,7 @@ func init() {
 			{ID: "C19.12", Desc: "no entry is left unreferenced by a list written from a snapshot", Run: func(c *Ctx) { ruleIndexUpdateAtomic(c, "C19.12") }, MinSites: 1},
 			{ID: "C19.13", Desc: "a list is deleted only together with the entries it names (Location / Content-Location targets included)", Run: func(c *Ctx) { ruleIndexDeleteAfterEntries(c, "C19.13") }, MinSites: 1},
 			{ID: "C19.14", Desc: "the id enumerator of a reference list visits every reference", Run: func(c *Ctx) { ruleRefEnumeratorVisitsAll(c, "C19.14") }, MinSites: 1},
+			{ID: "C19.15", Desc: "a Vary member name that is not valid UTF-8 does not make the index grow (names are stored in a form that survives JSON)", Run: func(c *Ctx) { ruleVaryNamesStorable(c, "C19.15") }, MinSites: 1},
 		},
 	})
 	register(&Property{
